@@ -36,7 +36,7 @@ def baseline():
 
 
 def rnd_lists(rng, n, steps):
-    return [[rng.randrange(1000) for _ in range(8 + 6 * steps)] for _ in range(n)]
+    return [[rng.randrange(1000) for _ in range(8 + 7 * steps)] for _ in range(n)]
 
 
 def corpus_walks(name):
@@ -55,7 +55,7 @@ def search(ctx, info, sysd, broken, log, n, steps):
     """differential execution of the two regenerated models on the corpus walks and on random walks; a
     distinguishing (state, choices) of a label is reported as a failure with the walk as replay"""
     cw = corpus_walks(sysd["name"])
-    rnds = [c["rnd"][:8 + 6 * steps] + [0] * max(0, 8 + 6 * steps - len(c["rnd"])) for c in cw] + rnd_lists(ctx.rng, n, steps)
+    rnds = [c["rnd"][:8 + 7 * steps] + [0] * max(0, 8 + 7 * steps - len(c["rnd"])) for c in cw] + rnd_lists(ctx.rng, n, steps)
     focus = [".".join(b.split(".")[1:]) for b in sorted(broken)]       # "process.label"
     mm, cover, err = G.run_walks(info, rnds, steps, log, focus)
     if err:
